@@ -85,6 +85,16 @@ class Color(enum.Enum):
     BLUE = 2
 
 
+class FlakyEq:
+    """__eq__ raises (and therefore no __hash__): KnownValue(FlakyEq()) is not even == itself."""
+
+    def __eq__(self, other):
+        raise IndentationError
+
+    def __repr__(self):
+        return "FlakyEq()"
+
+
 def fn_one(x: int) -> str:
     return str(x)
 
@@ -123,7 +133,7 @@ KNOWN_OBJECTS = {
 }
 KNOWN_EXPR = {"C": "valuegen.C", "fn_one": "valuegen.fn_one", "fn_two": "valuegen.fn_two",
               "Color.RED": "valuegen.Color.RED", "Color.BLUE": "valuegen.Color.BLUE"}
-UNHASHABLE_SRC = ["[1]", "[]", "{'a': 1}", "{1, 2}", "[1, [2]]", "{}", "bytearray(b'x')", "[1.0]", "[True]"]
+UNHASHABLE_SRC = ["[1]", "[]", "{'a': 1}", "{1, 2}", "[1, [2]]", "{}", "bytearray(b'x')", "[1.0]", "[True]", "FlakyEq()"]
 CALLABLES = {"fn_one": fn_one, "fn_two": fn_two, "len": len}
 
 # name -> (TypeVar, bound spec | None, constraint specs)
@@ -158,7 +168,7 @@ class GreaterThan(CustomCheck):
             v = typevars[self.value]
             if isinstance(v, KnownValue) and isinstance(v.val, int):
                 return GreaterThan(v.val)
-            return GreaterThan(0)  # "specified": the variable is gone either way
+            return GreaterThan(-abs(hash(self.value.__name__)) % 1000 - 1)  # "specified" (injective per variable)
         return self
 
 
@@ -175,7 +185,7 @@ class Builder:
     def unhashable(self, src: str, tag: str) -> Any:
         key = (src, tag)
         if key not in self._unhashable:
-            self._unhashable[key] = eval(src, {"__builtins__": {"bytearray": bytearray}})
+            self._unhashable[key] = eval(src, {"__builtins__": {"bytearray": bytearray}, "FlakyEq": FlakyEq})
         return self._unhashable[key]
 
     def build(self, spec) -> Value:
@@ -292,6 +302,46 @@ def children(spec) -> list:
     return []
 
 
+def with_children(spec, new) -> list:
+    """`spec` with its direct sub-specs (in the order of children(spec)) replaced by `new`."""
+    kind = spec[0]
+    new = list(new)
+    if kind == "generic":
+        return ["generic", spec[1], new]
+    if kind == "union":
+        return ["union", new]
+    if kind == "seq":
+        return ["seq", spec[1], [[m, n] for (m, _), n in zip(spec[2], new)]]
+    if kind == "dict":
+        it = iter(new)
+        return ["dict", [[next(it), next(it), many, req] for _, _, many, req in spec[1]]]
+    if kind == "typeddict":
+        it = iter(new)
+        items = {k: [next(it), req, ro] for k, (_, req, ro) in spec[1].items()}
+        extra = next(it) if spec[2] is not None else None
+        return ["typeddict", items, extra, spec[3]]
+    if kind == "callable":
+        params = [[n, k, d, a] for (n, k, d, _), a in zip(spec[1], new)]
+        return ["callable", params, new[-1], spec[3]]
+    if kind == "annotated":
+        it = iter(new)
+        inner = next(it)
+        metas = []
+        for m in spec[2]:
+            if m[0] in ("typeguard", "typeis"):
+                metas.append([m[0], next(it)])
+            elif m[0] in ("param_typeguard", "hasattr"):
+                metas.append([m[0], m[1], next(it)])
+            elif m[0] not in META_KINDS:
+                metas.append(next(it))
+            else:
+                metas.append(m)
+        return ["annotated", inner, metas]
+    if kind == "subclass":
+        return ["subclass", new[0], spec[2]]
+    return spec
+
+
 def walk_spec(spec) -> Iterator:
     yield spec
     for c in children(spec):
@@ -357,7 +407,7 @@ def to_expr(spec) -> str:
     if kind == "known":
         return f"KnownValue({KNOWN_EXPR.get(spec[1], spec[1])})"
     if kind == "known_u":
-        return f"KnownValue({spec[1]})" + (f"  # object {spec[2]!r}" if False else "")
+        return f"KnownValue({'valuegen.' if spec[1] == 'FlakyEq()' else ''}{spec[1]})"
     if kind in ("typed", "typed_lit"):
         t = TYPE_EXPR.get(spec[1], spec[1])
         return f"TypedValue({t}{', literal_only=True' if kind == 'typed_lit' else ''})"
@@ -437,6 +487,7 @@ CORE_POOL = [
     ["known", "int"], ["known", "fn_one"], ["known", "Color.RED"],
     # unhashable literals; "a"/"b" are equal but distinct objects
     ["known_u", "[1]", "a"], ["known_u", "[1]", "b"], ["known_u", "{'a': 1}", "a"], ["known_u", "{1, 2}", "a"],
+    ["known_u", "FlakyEq()", "a"],
     # typed
     _I, _S, _F, ["typed", "bool"], ["typed", "C"], ["typed", "list"], ["typed_lit", "str"],
     ["newtype", "UserId"],
@@ -456,7 +507,9 @@ CORE_POOL = [
     ["callable", [["x", "po", None, _T], ["k", "ko", ["known", "1"], _I]], _T, None],
     # annotated
     ["annotated", _I, [["deprecated", "old"]]], ["annotated", ["union", [_I, _S]], [["definite", True]]],
-    ["annotated", _T, [["typeguard", _T], ["check_gt", "U"]]], ["annotated", _S, [["literal_only"]]],
+    ["annotated", ["union", [_T, _I]], [["deprecated", "old"]]],
+    ["annotated", _T, [["param_typeguard", "x", _T], ["check_gt", "U"]]], ["annotated", _S, [["literal_only"]]],
+    ["annotated", ["typed", "bool"], [["typeis", _I]]], ["annotated", ["typed", "bool"], [["typeguard", _T]]],
     # subclass
     ["subclass", _I, False], ["subclass", _T, False], ["subclass", ["typed", "C"], True],
     # type variables: free, bounded, constrained
@@ -473,6 +526,7 @@ CORE_MAPS = [
     {"T": ["union", [_I, _S]]},
     {"T": ["generic", "list", [_U]]},
     {"T": ["never"]},
+    {"T": ["annotated", _S, [["always_present"]]]},
     {"T": ["known", "1"], "B": ["typed", "bool"], "K": _S},
     {"U": ["known_u", "[1]", "m"]},
     {"T": ["any", "explicit"], "U": ["typed", "C"], "BC": ["typed", "D"]},
@@ -511,7 +565,7 @@ def random_leaf(rng, typevars: bool = True):
 
 
 def random_meta(rng, depth, typevars):
-    r = rng.randrange(10)
+    r = rng.choice([0, 1, 2, 3, 4, 7, 8, 9])  # TypeGuard/TypeIs: see random_spec (only ever wrap bool)
     sub = lambda: random_spec(rng, max(0, depth - 1), typevars)  # noqa: E731
     if r == 0:
         return ["deprecated", rng.choice(["old", "gone"])]
@@ -573,6 +627,9 @@ def random_spec(rng, depth: int = 2, typevars: bool = True):
             params.append([f"p{i}", k, default, ann])
         return ["callable", params, sub(), rng.choice([None, None, "fn_one", "fn_two", "len"])]
     if r == 6:
+        if rng.random() < 0.2:
+            # annotations.py builds return guards only as Annotated[bool, TypeGuard[...] | TypeIs[...]]
+            return ["annotated", ["typed", "bool"], [[rng.choice(["typeguard", "typeis"]), sub()]]]
         inner = sub()
         if inner[0] == "annotated":  # pyanalyze flattens nested Annotated (annotate_value)
             inner = inner[1]
@@ -592,13 +649,31 @@ def random_spec(rng, depth: int = 2, typevars: bool = True):
     members = []
     for _ in range(n * 2):
         s = sub()
-        if s not in members and s != ["never"]:
+        if s not in members and not _is_bottom_spec(s) and not any(_same_literal(s, m) for m in members):
             members.append(s)
         if len(members) == n:
             break
     if len(members) < 2:
         return random_leaf(rng, typevars)
     return ["union", members]
+
+
+def _same_literal(s1, s2) -> bool:
+    """Two unhashable-literal specs whose objects compare equal (KnownValue.__eq__: same type, ==)."""
+    if s1[0] != "known_u" or s2[0] != "known_u":
+        return False
+    if "FlakyEq" in s1[1] or "FlakyEq" in s2[1]:
+        return False
+    a = eval(s1[1], {"__builtins__": {"bytearray": bytearray}})
+    b = eval(s2[1], {"__builtins__": {"bytearray": bytearray}})
+    return type(a) is type(b) and a == b
+
+
+def _is_bottom_spec(s) -> bool:
+    """Never / the Any[unreachable] marker (possibly annotated): unite_values never keeps them beside other members."""
+    while s[0] == "annotated":
+        s = s[1]
+    return s == ["never"] or s == ["any", "unreachable"]
 
 
 def random_map_spec(rng, depth: int = 1):
